@@ -10,7 +10,7 @@ as one empty operand [""] (as in the stream).
 """
 import itertools
 
-from .spec import OPERATORS, REG_FAMILIES, split_times
+from .spec import OPERATORS, REG_FAMILIES, reg_family, split_times
 
 
 class Oracle:
@@ -25,17 +25,17 @@ class Oracle:
 
     # ---- captures
     def _capture_operand(self, name, text, env):
-        base = name[1:].split(".")[0]
-        if base in REG_FAMILIES:
-            suffix = name.split(".")[1].lower() if "." in name else None
-            key = "&" + base
-            cands = [env[key]] if key in env else list(REG_FAMILIES[base])
+        fam = reg_family(name)
+        if fam is not None:
+            base, _, suffix = name.partition(".")
+            suffix = suffix.lower() or None
+            cands = [env[base]] if base in env else list(REG_FAMILIES[fam])
             for k in cands:
-                table = REG_FAMILIES[base][k]
+                table = REG_FAMILIES[fam][k]
                 names = [table[suffix]] if suffix in table else (sorted(set(table.values())) if suffix is None else [])
                 if text in ["%" + n for n in names]:
                     e = dict(env)
-                    e[key] = k
+                    e[base] = k
                     yield e
             return
         if name in env:
